@@ -31,7 +31,7 @@ const identitiesJSON = `{"identities":[
  {"name":"tester","credentials":[{"accessKey":"` + accessKey + `","secretKey":"` + secretKey + `"}],"actions":["Admin","Read","Write","List","Tagging"]}]}`
 
 func TestMain(m *testing.M) {
-	vlib.Rule("C28: op sequences (3-8 ops) against one bucket of a real master+volume+filer(-maxMB=1)+s3 child-process cluster, every case under its own key prefix: PUT (unsigned, and SigV4 streaming aws-chunked with generated chunk sizes and a configured identity), CopyObject, multipart uploads with 1-6 parts numbered from {1..12,99,100,999,1000,9999,10000} uploaded in random order with re-uploads, parts sent plain / streaming-signed / by UploadPartCopy (whole source or a source range), sizes 0 B..2 MiB incl. the 1 MiB filer chunk border; GET whole and generated ranges (a-b, a-, -n around 0, the end and the part borders); DeleteObject (existing, missing, a name that is only a directory prefix) and DeleteObjects (existing, duplicate, missing and nested names, quiet or not). Reference: a map key->bytes; after every mutating op the touched keys, and at the end all keys (GET whole + ranges) and the key set (one unpaginated ListObjectsV2 under the case prefix) are compared. Non-trivial = a multipart upload with >=3 parts uploaded out of order, or a batch delete with overlapping (duplicate or nested) names.")
+	vlib.Rule("C28: op sequences (3-8 ops) against two buckets of a real master+volume+filer(-maxMB=1)+s3 child-process cluster (keys drawn 2:1 over the buckets, so CopyObject / UploadPartCopy sources and destinations cross buckets; B2: marks the second bucket), every case under its own key prefix: PUT (unsigned, and SigV4 streaming aws-chunked with generated chunk sizes and a configured identity), CopyObject, multipart uploads with 1-6 parts numbered from {1..12,99,100,999,1000,9999,10000} uploaded in random order with re-uploads, parts sent plain / streaming-signed / by UploadPartCopy (whole source or a source range), sizes 0 B..2 MiB incl. the 1 MiB filer chunk border; GET whole and generated ranges (a-b, a-, -n around 0, the end and the part borders); DeleteObject (existing, missing, a name that is only a directory prefix) and DeleteObjects (existing, duplicate, missing and nested names, quiet or not). Reference: a map (bucket,key)->bytes; after every mutating op the touched keys, and at the end all keys (GET whole + ranges) and the key set (one unpaginated ListObjectsV2 per bucket under the case prefix) are compared. Non-trivial = a multipart upload with >=3 parts uploaded out of order, or a batch delete with overlapping (duplicate or nested) names.")
 	vlib.Assume("keys are ones SeaweedFS can hold (no key is a directory of another, none ends in '/'); CompleteMultipartUpload always names every uploaded part; ETags and metadata are not compared; the unpaginated listing used for the key-set comparison is trusted here (C27 checks listings)")
 	vlib.Main(m)
 }
@@ -39,12 +39,19 @@ func TestMain(m *testing.M) {
 // ---------------------------------------------------------------- cluster
 
 var (
-	clOnce sync.Once
-	cl     *vlib.Cluster
-	clErr  error
-	cli    s3c
-	bucket string
+	clOnce  sync.Once
+	cl      *vlib.Cluster
+	clErr   error
+	cli     s3c
+	bucket  string    // = buckets[0]; the finding probes use it
+	buckets [2]string // two buckets per shard, equally long names: copies go across them
 )
+
+// bk splits a location "bucket/key" as the model and the trace use it.
+func bk(loc string) (string, string) {
+	i := strings.Index(loc, "/")
+	return loc[:i], loc[i+1:]
+}
 
 type fataler interface {
 	Fatalf(string, ...any)
@@ -57,22 +64,30 @@ func cluster(t fataler) *vlib.Cluster {
 			return
 		}
 		cli = s3c{cl.S3URL()}
-		bucket = fmt.Sprintf("c28s%d", vlib.Shard())
-		if clErr = cli.createBucket(bucket); clErr != nil {
-			return
-		}
-		// the first write grows the bucket's first volume; wait for it here so that no case sees a setup error
-		var last string
-		for i := 0; i < 100; i++ {
-			code, body, err := cli.put(bucket, "warmup", []byte("x"))
-			if err == nil && code == 200 {
-				cli.deleteObject(bucket, "warmup")
+		buckets = [2]string{fmt.Sprintf("c28s%d", vlib.Shard()), fmt.Sprintf("c28t%d", vlib.Shard())}
+		bucket = buckets[0]
+		for _, b := range buckets {
+			if clErr = cli.createBucket(b); clErr != nil {
 				return
 			}
-			last = fmt.Sprintf("%d %s %v", code, body, err)
-			time.Sleep(200 * time.Millisecond)
+			// the first write grows the bucket's first volume; wait for it here so that no case sees a setup error
+			var last string
+			ok := false
+			for i := 0; i < 100 && !ok; i++ {
+				code, body, err := cli.put(b, "warmup", []byte("x"))
+				if err == nil && code == 200 {
+					cli.deleteObject(b, "warmup")
+					ok = true
+					break
+				}
+				last = fmt.Sprintf("%d %s %v", code, body, err)
+				time.Sleep(200 * time.Millisecond)
+			}
+			if !ok {
+				clErr = fmt.Errorf("bucket %s never became writable: %s", b, last)
+				return
+			}
 		}
-		clErr = fmt.Errorf("bucket %s never became writable: %s", bucket, last)
 	})
 	if clErr != nil {
 		t.Fatalf("INCONCLUSIVE cluster start: %v", clErr)
@@ -169,17 +184,19 @@ func genRelKey() *rapid.Generator[string] {
 // ---------------------------------------------------------------- model
 
 type model struct {
-	prefix  string
-	objs    map[string][]byte // full key -> content
+	prefix  string            // the case's key prefix, the same in both buckets
+	root    [2]string         // buckets[i] + "/" + prefix
+	plen    int               // len(root[i])
+	objs    map[string][]byte // location "bucket/key" -> content
 	everDir map[string]bool   // every directory a written key ever implied (they can outlive their keys as empty directories)
 }
 
 // set records a write of key.
 func (m *model) set(key string, data []byte) {
 	m.objs[key] = data
-	parts := strings.Split(key[len(m.prefix):], "/")
+	parts := strings.Split(key[m.plen:], "/")
 	for i := 1; i < len(parts); i++ {
-		m.everDir[m.prefix+strings.Join(parts[:i], "/")] = true
+		m.everDir[key[:m.plen]+strings.Join(parts[:i], "/")] = true
 	}
 }
 
@@ -196,10 +213,10 @@ func (m *model) keys() []string {
 func (m *model) dirs() []string {
 	set := map[string]bool{}
 	for k := range m.objs {
-		rel := k[len(m.prefix):]
+		rel := k[m.plen:]
 		parts := strings.Split(rel, "/")
 		for i := 1; i < len(parts); i++ {
-			set[m.prefix+strings.Join(parts[:i], "/")] = true
+			set[k[:m.plen]+strings.Join(parts[:i], "/")] = true
 		}
 	}
 	var ds []string
@@ -217,10 +234,10 @@ func (m *model) writable(key string) bool {
 			return false
 		}
 	}
-	rel := key[len(m.prefix):]
+	rel := key[m.plen:]
 	parts := strings.Split(rel, "/")
 	for i := 1; i < len(parts); i++ {
-		if _, ok := m.objs[m.prefix+strings.Join(parts[:i], "/")]; ok {
+		if _, ok := m.objs[key[:m.plen]+strings.Join(parts[:i], "/")]; ok {
 			return false
 		}
 	}
@@ -233,14 +250,28 @@ func (m *model) writable(key string) bool {
 }
 
 func drawWritableKey(t *rapid.T, m *model, label string) string {
+	return drawWritableKeyIn(t, m, rapid.SampledFrom([]int{0, 0, 1}).Draw(t, label+"Bucket"), label)
+}
+
+func drawWritableKeyIn(t *rapid.T, m *model, bi int, label string) string {
 	for i := 0; i < 8; i++ {
-		k := m.prefix + genRelKey().Draw(t, label)
+		k := m.root[bi] + genRelKey().Draw(t, label)
 		if m.writable(k) {
 			return k
 		}
 	}
 	// a fresh top-level name is always writable
-	return m.prefix + "n" + strconv.Itoa(len(m.objs)) + "-" + strconv.Itoa(rapid.IntRange(0, 1<<20).Draw(t, label+"Fresh"))
+	return m.root[bi] + "n" + strconv.Itoa(len(m.objs)) + "-" + strconv.Itoa(rapid.IntRange(0, 1<<20).Draw(t, label+"Fresh"))
+}
+
+// inBucket filters locations by bucket index.
+func (m *model) inBucket(locs []string, bi int) (out []string) {
+	for _, l := range locs {
+		if strings.HasPrefix(l, m.root[bi]) {
+			out = append(out, l)
+		}
+	}
+	return
 }
 
 func drawExistingKey(t *rapid.T, m *model, label string) string {
@@ -262,7 +293,8 @@ func firstDiff(a, b []byte) int {
 }
 
 func checkWhole(key string, want []byte) error {
-	code, hdr, body, err := cli.get(bucket, key, "")
+	b_, k_ := bk(key)
+	code, hdr, body, err := cli.get(b_, k_, "")
 	if err != nil {
 		return fmt.Errorf("GET %q: transport error %v", key, err)
 	}
@@ -279,7 +311,8 @@ func checkWhole(key string, want []byte) error {
 }
 
 func checkGone(key string) error {
-	code, _, body, err := cli.get(bucket, key, "")
+	b_, k_ := bk(key)
+	code, _, body, err := cli.get(b_, k_, "")
 	if err != nil {
 		return fmt.Errorf("GET %q: transport error %v", key, err)
 	}
@@ -291,7 +324,8 @@ func checkGone(key string) error {
 
 // checkRange evaluates one single-range GET against want.
 func checkRange(key string, want []byte, rng string, start, end int) error {
-	code, hdr, body, err := cli.get(bucket, key, rng)
+	b_, k_ := bk(key)
+	code, hdr, body, err := cli.get(b_, k_, rng)
 	if err != nil {
 		return fmt.Errorf("GET %q Range %s: transport error %v", key, rng, err)
 	}
@@ -354,7 +388,9 @@ func trimS(s string, n int) string {
 	return s
 }
 
-func listKeys(prefix string) ([]string, error) {
+func listKeys(prefix string) ([]string, error) { return listKeysIn(bucket, prefix) }
+
+func listKeysIn(bucket, prefix string) ([]string, error) {
 	code, res, body, err := cli.listPage(bucket, true, [][2]string{{"prefix", prefix}})
 	if err != nil || code != 200 || res == nil {
 		return nil, fmt.Errorf("list prefix %q: %d %s %v", prefix, code, trimS(string(body), 200), err)
@@ -385,13 +421,19 @@ func verifyAll(m *model, gone []string) error {
 			return err
 		}
 	}
-	got, err := listKeys(m.prefix)
-	if err != nil {
-		return err
-	}
-	want := m.keys()
-	if strings.Join(got, "\x00") != strings.Join(want, "\x00") {
-		return fmt.Errorf("keys under %q are %q, want %q", m.prefix, got, want)
+	for bi, b := range buckets {
+		got, err := listKeysIn(b, m.prefix)
+		if err != nil {
+			return err
+		}
+		var want []string
+		for _, l := range m.inBucket(m.keys(), bi) {
+			_, k := bk(l)
+			want = append(want, k)
+		}
+		if strings.Join(got, "\x00") != strings.Join(want, "\x00") {
+			return fmt.Errorf("keys of bucket %s under %q are %q, want %q", b, m.prefix, got, want)
+		}
 	}
 	return nil
 }
@@ -439,6 +481,10 @@ func TestPropRoundTrip(t *testing.T) {
 	vlib.Check(t, 100, 1600, func(t *rapid.T) {
 		cluster(t)
 		m := &model{prefix: newCasePrefix(), objs: map[string][]byte{}, everDir: map[string]bool{}}
+		for i, b := range buckets {
+			m.root[i] = b + "/" + m.prefix
+		}
+		m.plen = len(m.root[0])
 		var gone []string // keys that were deleted or named in deletes
 		var trace []string
 		nontrivial := false
@@ -465,7 +511,7 @@ func TestPropRoundTrip(t *testing.T) {
 			case "put":
 				key, bl, data := putBlob("put")
 				trace = append(trace, fmt.Sprintf("PUT %q %s", key, bl))
-				code, body, err := write(func() (int, []byte, error) { return cli.put(bucket, key, data) })
+				code, body, err := write(func() (int, []byte, error) { b_, k_ := bk(key); return cli.put(b_, k_, data) })
 				if err != nil || code != 200 {
 					fail("PUT %q (%d bytes) -> %d %s %v", key, len(data), code, trimS(string(body), 200), err)
 				}
@@ -483,7 +529,8 @@ func TestPropRoundTrip(t *testing.T) {
 				cs := genChunkSizes(t, len(data))
 				trace = append(trace, fmt.Sprintf("PUT-streaming-signed %q %s chunks=%v", key, bl, cs))
 				code, body, err := write(func() (int, []byte, error) {
-					return cli.streamingPut(bucket, key, "", data, cs, accessKey, secretKey)
+					b_, k_ := bk(key)
+					return cli.streamingPut(b_, k_, "", data, cs, accessKey, secretKey)
 				})
 				if err != nil || code != 200 {
 					fail("streaming-signed PUT %q (%d bytes, chunk sizes %v) -> %d %s %v", key, len(data), cs, code, trimS(string(body), 200), err)
@@ -497,9 +544,21 @@ func TestPropRoundTrip(t *testing.T) {
 			case "copy":
 				src := drawExistingKey(t, m, "copySrc")
 				var dst string
-				if rapid.IntRange(0, 3).Draw(t, "copyOver") == 0 && len(m.objs) > 1 {
+				switch c := rapid.IntRange(0, 7).Draw(t, "copyOver"); {
+				case c <= 1 && len(m.objs) > 1:
 					dst = drawExistingKey(t, m, "copyDst")
-				} else {
+				case c <= 3:
+					// the same key in the other bucket
+					sb, sk := bk(src)
+					other := buckets[0]
+					if sb == other {
+						other = buckets[1]
+					}
+					dst = other + "/" + sk
+					if _, exists := m.objs[dst]; !exists && !m.writable(dst) {
+						dst = drawWritableKey(t, m, "copyDst")
+					}
+				default:
 					dst = drawWritableKey(t, m, "copyDst")
 				}
 				if dst == src {
@@ -510,7 +569,12 @@ func TestPropRoundTrip(t *testing.T) {
 					continue
 				}
 				trace = append(trace, fmt.Sprintf("COPY %q -> %q", src, dst))
-				code, body, err := write(func() (int, []byte, error) { return cli.copyObject(bucket, dst, bucket, src) })
+				db, dk := bk(dst)
+				sb, sk := bk(src)
+				code, body, err := write(func() (int, []byte, error) { return cli.copyObject(db, dk, sb, sk) })
+				if db != sb {
+					classes["copy-cross-bucket"] = true
+				}
 				if err != nil || code != 200 || bytes.Contains(body, []byte("<Error>")) {
 					fail("CopyObject %q -> %q -> %d %s %v", src, dst, code, trimS(string(body), 200), err)
 				}
@@ -556,7 +620,8 @@ func TestPropRoundTrip(t *testing.T) {
 					order = append(order, rapid.SampledFrom(nums).Draw(t, "reuploadPart"))
 				}
 				ascending := sort.IntsAreSorted(nums)
-				id, err := cli.initiateMultipart(bucket, key)
+				kb, kk := bk(key)
+				id, err := cli.initiateMultipart(kb, kk)
 				if err != nil {
 					fail("%v", err)
 				}
@@ -576,14 +641,14 @@ func TestPropRoundTrip(t *testing.T) {
 						bl := genBlob(false).Draw(t, "partData")
 						data = bl.bytes()
 						d = bl.String()
-						code, body, err = write(func() (int, []byte, error) { return cli.uploadPart(bucket, key, id, num, data) })
+						code, body, err = write(func() (int, []byte, error) { return cli.uploadPart(kb, kk, id, num, data) })
 					case "streaming":
 						bl := genBlob(false).Draw(t, "partData")
 						data = bl.bytes()
 						cs := genChunkSizes(t, len(data))
 						d = fmt.Sprintf("%s streaming chunks=%v", bl, cs)
 						code, body, err = write(func() (int, []byte, error) {
-							return cli.streamingPut(bucket, key, q("partNumber", strconv.Itoa(num), "uploadId", id), data, cs, accessKey, secretKey)
+							return cli.streamingPut(kb, kk, q("partNumber", strconv.Itoa(num), "uploadId", id), data, cs, accessKey, secretKey)
 						})
 					case "copy", "copyrange":
 						src := drawExistingKey(t, m, "partSrc")
@@ -592,20 +657,24 @@ func TestPropRoundTrip(t *testing.T) {
 							bl := genBlob(false).Draw(t, "partData")
 							data = bl.bytes()
 							d = bl.String()
-							code, body, err = cli.uploadPart(bucket, key, id, num, data)
+							code, body, err = cli.uploadPart(kb, kk, id, num, data)
 							break
 						}
 						sd := m.objs[src]
+						sb, sk := bk(src)
+						if sb != kb {
+							classes["part-copy-cross-bucket"] = true
+						}
 						if how == "copyrange" && len(sd) > 0 {
 							a := rapid.IntRange(0, len(sd)-1).Draw(t, "srcFrom")
 							b := rapid.IntRange(a, len(sd)-1).Draw(t, "srcTo")
 							data = sd[a : b+1]
 							d = fmt.Sprintf("copy of %q bytes=%d-%d", src, a, b)
-							code, body, err = cli.uploadPartCopy(bucket, key, id, num, bucket, src, fmt.Sprintf("bytes=%d-%d", a, b))
+							code, body, err = cli.uploadPartCopy(kb, kk, id, num, sb, sk, fmt.Sprintf("bytes=%d-%d", a, b))
 						} else {
 							data = sd
 							d = fmt.Sprintf("copy of %q (%dB)", src, len(sd))
-							code, body, err = cli.uploadPartCopy(bucket, key, id, num, bucket, src, "")
+							code, body, err = cli.uploadPartCopy(kb, kk, id, num, sb, sk, "")
 						}
 						classes["part-copy"] = true
 					}
@@ -617,7 +686,7 @@ func TestPropRoundTrip(t *testing.T) {
 					final[num] = data
 				}
 				trace = append(trace, fmt.Sprintf("MULTIPART %q [%s] complete", key, strings.Join(evs, ", ")))
-				code, body, err := cli.completeMultipart(bucket, key, id, nums)
+				code, body, err := cli.completeMultipart(kb, kk, id, nums)
 				if err != nil || code != 200 {
 					fail("CompleteMultipartUpload %q -> %d %s %v", key, code, trimS(string(body), 300), err)
 				}
@@ -695,7 +764,8 @@ func TestPropRoundTrip(t *testing.T) {
 					key, what = drawWritableKey(t, m, "delMissing"), "missing"
 				}
 				trace = append(trace, fmt.Sprintf("DELETE %q (%s)", key, what))
-				code, body, err := cli.deleteObject(bucket, key)
+				db, dk := bk(key)
+				code, body, err := cli.deleteObject(db, dk)
 				if err != nil || code != 204 {
 					fail("DeleteObject %q (%s) -> %d %s %v", key, what, code, trimS(string(body), 200), err)
 				}
@@ -710,16 +780,22 @@ func TestPropRoundTrip(t *testing.T) {
 				n := rapid.IntRange(1, 6).Draw(t, "batchSize")
 				var names []string
 				overlap := false
+				// one request deletes in one bucket
+				bi := rapid.SampledFrom([]int{0, 0, 1}).Draw(t, "batchBucket")
+				if len(m.inBucket(m.keys(), bi)) == 0 && len(m.inBucket(m.keys(), 1-bi)) > 0 {
+					bi = 1 - bi
+				}
+				bKeys, bDirs := m.inBucket(m.keys(), bi), m.inBucket(m.dirs(), bi)
 				for i := 0; i < n; i++ {
 					switch c := rapid.IntRange(0, 9).Draw(t, "batchWhat"); {
-					case c <= 4 && len(m.objs) > 0:
-						names = append(names, drawExistingKey(t, m, "batchKey"))
+					case c <= 4 && len(bKeys) > 0:
+						names = append(names, rapid.SampledFrom(bKeys).Draw(t, "batchKey"))
 					case c == 5 && len(names) > 0:
 						names = append(names, rapid.SampledFrom(names).Draw(t, "batchDup"))
-					case c <= 7 && len(m.dirs()) > 0:
-						names = append(names, rapid.SampledFrom(m.dirs()).Draw(t, "batchDir"))
+					case c <= 7 && len(bDirs) > 0:
+						names = append(names, rapid.SampledFrom(bDirs).Draw(t, "batchDir"))
 					default:
-						names = append(names, drawWritableKey(t, m, "batchMissing"))
+						names = append(names, drawWritableKeyIn(t, m, bi, "batchMissing"))
 					}
 				}
 				seen := map[string]bool{}
@@ -736,7 +812,12 @@ func TestPropRoundTrip(t *testing.T) {
 				}
 				quiet := rapid.Bool().Draw(t, "quiet")
 				trace = append(trace, fmt.Sprintf("DELETE-BATCH %q quiet=%v", names, quiet))
-				code, res, body, err := cli.deleteObjects(bucket, names, quiet)
+				var rel []string
+				for _, l := range names {
+					_, k := bk(l)
+					rel = append(rel, k)
+				}
+				code, res, body, err := cli.deleteObjects(buckets[bi], rel, quiet)
 				if err != nil || code != 200 || res == nil {
 					fail("DeleteObjects %q -> %d %s %v", names, code, trimS(string(body), 300), err)
 				}
@@ -775,8 +856,15 @@ func TestPropRoundTrip(t *testing.T) {
 			}
 		}
 		// leave the bucket small: remove what this case wrote (not part of the property)
-		if ks := m.keys(); len(ks) > 0 {
-			cli.deleteObjects(bucket, ks, true)
+		for bi, b := range buckets {
+			var rel []string
+			for _, l := range m.inBucket(m.keys(), bi) {
+				_, k := bk(l)
+				rel = append(rel, k)
+			}
+			if len(rel) > 0 {
+				cli.deleteObjects(b, rel, true)
+			}
 		}
 		var cls []string
 		for c := range classes {
@@ -790,7 +878,7 @@ func TestPropRoundTrip(t *testing.T) {
 			first = "batch-delete-overlap"
 		}
 		// the case prefix is a counter: leave it out of the canonical description
-		desc := strings.ReplaceAll(strings.Join(trace, "; "), m.prefix, "")
+		desc := strings.ReplaceAll(strings.ReplaceAll(strings.Join(trace, "; "), m.root[0], ""), m.root[1], "B2:")
 		vlib.Case(desc, nontrivial, append([]string{first}, cls...)...)
 	})
 }
